@@ -96,12 +96,18 @@ def types_snapshot(g):
             for k, n in g.nodes.items()}
 
 
-def check_one(ctx, g, label, cases, obs, reqs):
+def check_one(ctx, g, label, cases, obs, reqs, edit=None, seconds=5):
+    """`edit` = (description, function): the graph object is modified through its public attributes after
+    construction and before inference (the model comparison is skipped then)"""
     import nir
     case = {"op": "graph", "graph": g, "ops": ["infer", "infer"]}
+    if edit is not None:
+        case["edited_after_construction"] = edit[0]
     ctx.case(case); ctx.count(label)
     try:
         graph = impl_construct(g)
+        if edit is not None:
+            edit[1](graph)
     except Exception:
         ctx.count("construct_rejected")
         return
@@ -110,11 +116,14 @@ def check_one(ctx, g, label, cases, obs, reqs):
     start, reach = reachable(graph)
     sig = {"site": "infer_types"}
     try:
-        err = bounded_infer(graph)
+        err = bounded_infer(graph, seconds)
     except Hang:
-        ctx.violate(case, "infer_types did not terminate within 5 s", {**sig, "what": "hang"})
+        ctx.violate(case, "infer_types did not terminate within %d s" % seconds, {**sig, "what": "hang"})
         return
     ctx.count("raised" if err else "inferred")
+    if edit is not None and err is not None and edit[0].get("must_succeed"):
+        ctx.violate(case, "infer_types raised on a consistent graph", {**sig, "what": "raised", "err": err}, observed=err)
+        return
     after = frame_snapshot(graph)
     # the only field inference may set is an undefined Conv input_shape
     for k in before["nodes"]:
@@ -158,6 +167,8 @@ def check_one(ctx, g, label, cases, obs, reqs):
             ctx.violate(case, "running infer_types a second time changed something", {**sig, "what": "idempotent"},
                         observed={"err": err2, "changed": [k for k in types1 if types1[k] != types2.get(k)]})
             return
+    if edit is not None:
+        return
     steps, _ = run_graph_ops(g, ["infer", "infer"])
     cases.append(case); obs.append({"steps": steps}); reqs.append(case)
 
@@ -204,4 +215,33 @@ def run(ctx):
             for _ in range(rng.randrange(1, 4)):
                 g["edges"].append(["src", rng.choice(names)])
         check_one(ctx, g, "arbitrary", cases, obs, reqs)
+    # graphs edited after construction: a second component (own Input, erased Conv / Flatten / Output) is added through
+    # graph.nodes / graph.edges, or an Input is removed, before inference is asked for
+    import nir
+    for i in range(ctx.n(40)):
+        g, truth, erased = gen.consistent_graph(rng, max_nodes=5)
+        g2, truth2, erased2 = gen.consistent_graph(rng, max_nodes=4)
+        ren = lambda x: "z_" + x
+        extra_nodes = [[ren(n), r] for n, r in g2["nodes"]]
+        extra_edges = [[ren(a), ren(b)] for a, b in g2["edges"]]
+
+        def add_component(graph, extra_nodes=extra_nodes, extra_edges=extra_edges):
+            for n, r in extra_nodes:
+                graph.nodes[n] = impl_construct(r)
+            for a, b in extra_edges:
+                graph.edges.append((a, b))
+        check_one(ctx, g, "edited_add_component", cases, obs, reqs,
+                  edit=({"added_nodes": extra_nodes, "added_edges": extra_edges}, add_component))
+    # depth: a single path far longer than any recursion limit
+    for depth in ([1500] if ctx.tier == "quick" else [1500, 4000]):
+        chain = [["in", {"type": "Input", "kwargs": [["input_type", {"l": [gen.pyint(4)]}]]}]]
+        chain += [[f"t{i}", {"type": "Threshold", "kwargs": [["threshold", gen.arr(rng, [4], "<f8")]]}] for i in range(depth)]
+        chain += [["out", {"type": "Output", "kwargs": [["output_type", None]]}]]
+        names = [n for n, _ in chain]
+        edges = [[a, b] for a, b in zip(names, names[1:])]
+        if rng.random() < 0.5:
+            rng.shuffle(edges)
+        g = {"type": "NIRGraph", "nodes": chain, "edges": edges, "meta": None}
+        check_one(ctx, g, "long_chain", cases, obs, reqs, edit=({"long_chain": depth, "must_succeed": True}, lambda graph: None),
+                  seconds=60)
     ctx.compare("graphs", cases, obs, reqs)
